@@ -154,3 +154,4 @@ from pyvc.native import native_monitor  # noqa: E402
 
 EXTRA_CHECKS = [native_monitor("C15", "contracts.c04_native", "monitor_hyperband", "hyperband", "631 (thorough 3598) scenarios: the real HyperbandScheduler (promotion, pasha, rush, cost-aware, stopping; 1..3 brackets; all data policies; random and GP searcher) under a Tuner-like event loop with failures and self-completion, compared with an independent ledger (numpy quantiles, three-valued eligibility with tie latitude, total cost, PASHA min/max twin)")]
 EXTRA_CHECKS = list(EXTRA_CHECKS) + [native_monitor("C15", "contracts.c05_native", "monitor_sync", "sync-hyperband", "about 23000 (thorough 217000) scenarios: get_top_list on every rank permutation x failure subset of <= 5 (6) slots, single brackets, synchronous and DEHB bracket managers and schedulers under every return order / failure sequence of 3..5 (5..7) steps and random schedules (1..9 workers, <= 70 (160) steps), against an independent reference with tie latitude; min/max twin runs incl. PASHA soft ranking and asynchronous Hyperband types")]
+EXTRA_CHECKS = list(EXTRA_CHECKS) + [native_monitor("C15", "contracts.c19_native", "monitor_moasha", "moasha", "704 point sets + 1086 MOASHA scenarios (thorough 6535 in total): pareto filter / non-dominated sort / priorities on every small grid set and random sets (n <= 9 (12), dimension 1..5, ties, duplicates) x preferred dimension x max_items; the real MOASHA (max_t <= 27, rf in {1.5,2,2.5,3,4}, brackets 1..3, every min/max list, all priorities) under every arrival order of 3-4 (5) chain points and random interleavings with level-skipping / late-first reporters and on_trial_complete, exact rational rank fractions, min/max twin with permuted metric order")]
